@@ -665,19 +665,19 @@ V(id='c17-bump-includes-nearest', prop='C17', file='mpmath/libmp/libelefun.py',
   new="        if rnd in (round_up, round_ceiling, round_nearest):\n            v += 1",
   expect='fire:K-R1:def_mpf_constant.f')
 V(id='c17-bump-after-rounding', prop='C17', file='mpmath/libmp/libelefun.py',
-  old="        v = fixed(wp)\n        if rnd in (round_up, round_ceiling):\n            v += 1\n        return normalize(0, v, -wp, bitcount(v), prec, rnd)",
-  new="        v = fixed(wp)\n        r = normalize(0, v, -wp, bitcount(v), prec, rnd)\n        if rnd in (round_up, round_ceiling):\n            v += 1\n        return r",
+  old="        if rnd in (round_up, round_ceiling):\n            v += 1\n        return normalize(0, v, -wp, bitcount(v), prec, rnd)",
+  new="        r = normalize(0, v, -wp, bitcount(v), prec, rnd)\n        if rnd in (round_up, round_ceiling):\n            v += 1\n        return r",
   expect='fire:K-R1:def_mpf_constant.f')
 V(id='c17-no-guard-bits', prop='C17', file='mpmath/libmp/libelefun.py',
-  old="        wp = prec + 20\n        v = fixed(wp)", new="        wp = prec + 1\n        v = fixed(wp)",
+  old="        wp = prec + 20\n        while 1:", new="        wp = prec + 1\n        while 1:",
   expect='fire:K-R1:def_mpf_constant.f')
 V(id='c17-round-twice', prop='C17', file='mpmath/libmp/libelefun.py',
   old="        return normalize(0, v, -wp, bitcount(v), prec, rnd)\n    f.__doc__",
   new="        return mpf_pos(normalize(0, v, -wp, bitcount(v), prec+5, rnd), prec, rnd)\n    f.__doc__",
   expect='fire:K-R1:def_mpf_constant.f')
 V(id='c17-double-fast-path', prop='C17', file='mpmath/libmp/libelefun.py',
-  old="    def f(prec, rnd=round_fast):\n        wp = prec + 20\n        v = fixed(wp)",
-  new="    def f(prec, rnd=round_fast):\n        if prec == 53 and rnd == round_nearest and fixed is pi_fixed:\n            return from_float(math.pi)\n        wp = prec + 20\n        v = fixed(wp)",
+  old="    def f(prec, rnd=round_fast):\n        wp = prec + 20\n        while 1:",
+  new="    def f(prec, rnd=round_fast):\n        if prec == 53 and rnd == round_nearest and fixed is pi_fixed:\n            return from_float(math.pi)\n        wp = prec + 20\n        while 1:",
   expect='fire:K-R1:def_mpf_constant.f')
 V(id='c17-memo-tag-first', prop='C17', file='mpmath/libmp/libelefun.py',
   old="        f.memo_val = f(newprec, **kwargs)\n        f.memo_prec = newprec",
@@ -707,8 +707,8 @@ V(id='c17-constant-ignores-rounding', prop='C17', file='mpmath/ctx_mp_python.py'
 V(id='c17-shifts-down-table', prop='C17', file='mpmath/libmp/libmpf.py',
   old="round_ceiling:(0,1)", new="round_ceiling:(1,1)", expect='fire:B-R3:shifts_down')
 V(id='c17-benign-rename', prop='C17', file='mpmath/libmp/libelefun.py',
-  old="        wp = prec + 20\n        v = fixed(wp)\n        if rnd in (round_up, round_ceiling):\n            v += 1\n        return normalize(0, v, -wp, bitcount(v), prec, rnd)",
-  new="        workprec = prec + 25\n        val = fixed(workprec)\n        if rnd == round_up or rnd == round_ceiling:\n            val += 1\n        return normalize(0, val, -workprec, bitcount(val), prec, rnd)",
+  old="        if rnd in (round_up, round_ceiling):\n            v += 1\n        return normalize(0, v, -wp, bitcount(v), prec, rnd)",
+  new="        if rnd == round_up or rnd == round_ceiling:\n            v += 1\n        return normalize(0, v, -wp, bitcount(v), prec, rnd)",
   expect='silent')
 V(id='c17-benign-iv-inline', prop='C17', file='mpmath/ctx_iv.py',
   old="        a = self._f(prec, round_floor)\n        b = self._f(prec, round_ceiling)\n        return a, b",
@@ -1602,3 +1602,25 @@ V(id='c11-manager-stack-shared', prop='C11', file='mpmath/ctx_mp.py',
 V(id='c11-manager-exit-peeks', prop='C11', file='mpmath/ctx_mp.py',
   old="        self.ctx.prec = self.origp.pop()", new="        self.ctx.prec = self.origp[-1]",
   expect='fire:A-R4:PrecisionManager')
+
+# ---- C17 K-R5 / K-R6 (fixes 38bfe48, c311ac5) ----
+V(id='c17-apery-constant-guard', prop='C17', file='mpmath/libmp/gammazeta.py',
+  old="    extra = 20 + 3*bitcount(prec)\n", new="    extra = 20\n",
+  expect='fire:K-R5:apery_fixed')
+V(id='c17-catalan-growing-coefficient', prop='C17', file='mpmath/libmp/gammazeta.py',
+  old="        t = a * (-1)**(n-1) * (40*n**2-24*n+3) // (n**3 * (2*n-1))",
+  new="        t = a * (-1)**(n-1) * (40*n**2-24*n+3) * n**3",
+  expect='fire:K-R5:catalan_fixed')
+V(id='c17-apery-benign-guard-form', prop='C17', file='mpmath/libmp/gammazeta.py',
+  old="    extra = 20 + 3*bitcount(prec)\n", new="    extra = 24 + 3*bitcount(prec + 1)\n",
+  expect='silent')
+V(id='c17-constant-no-retry', prop='C17', file='mpmath/libmp/libelefun.py',
+  old="                if r > 16:\n                    break\n            wp += 32",
+  new="                break\n            wp += 32",
+  expect='fire:K-R6:def_mpf_constant.f')
+V(id='c17-constant-retry-same-precision', prop='C17', file='mpmath/libmp/libelefun.py',
+  old="            wp += 32\n        if rnd in (round_up, round_ceiling):", new="            pass\n        if rnd in (round_up, round_ceiling):",
+  expect='fire:K-R6:def_mpf_constant.f')
+V(id='c17-constant-margin-benign', prop='C17', file='mpmath/libmp/libelefun.py',
+  old="                if r > 16:", new="                if r >= 32:",
+  expect='silent')
